@@ -8,6 +8,7 @@ TMP=$(mktemp -d /tmp/benmx.XXXX)
 VSNAP=$TMP/verif; mkdir -p $VSNAP; git -C /verif archive HEAD | tar -x -C $VSNAP
 export VSNAP
 CHECKS=$(python3 -c "import json;print(' '.join(c['property_id'] for c in json.load(open('MANIFEST.json'))['checks']))")
+[ -n "$BEN_CHECKS" ] && CHECKS=$BEN_CHECKS     # e.g. BEN_CHECKS="C03 C05" to re-run only the checks that changed
 run_one() {
   p=$1; name=$(basename $p .diff); wt=$TMP/wt-$name
   git -C /repo worktree add -q --detach $wt HEAD || return
